@@ -105,14 +105,16 @@ def lib_dir(flavour):
 
 
 def prune(flavour, keep):
-    """keep the newest two generations per flavour (disk limit)"""
+    """disk limit: keep the newest four generations per flavour; never remove one that was used within the last
+    30 minutes (another check may be running from it)"""
     try:
         ds = [os.path.join(BUILD, d) for d in os.listdir(BUILD) if d.startswith(flavour + '-') and os.path.isdir(os.path.join(BUILD, d))]
     except FileNotFoundError:
         return
     ds.sort(key=lambda d: os.path.getmtime(d), reverse=True)
-    for d in ds[2:]:
-        if d != keep:
+    now = time.time()
+    for d in ds[4:]:
+        if d != keep and now - os.path.getmtime(d) > 1800:
             shutil.rmtree(d, ignore_errors=True)
 
 
@@ -147,6 +149,7 @@ def build_driver(flavour, driver, extra_flags=(), extra_ld=(), jobs=16):
     exe = os.path.join(d, '%s-%s' % (driver, hh))
     with Lock('drv-%s-%s' % (flavour, driver)):
         if os.path.exists(exe):
+            os.utime(d)
             return exe
         for old in os.listdir(d):
             if old.startswith(driver + '-'):
